@@ -64,6 +64,16 @@ Theorem C18_threshold_disconnects : forall n ip pid amt now,
   banned (gt n') ip = true /\ connected n' pid = false.
 Proof. exact threshold_disconnects. Qed.
 
+(* a peer connected from several IPs at once: BanPeer bans EVERY IP it was connected from (each refused on both paths) and
+   disconnects it - the loop over the connection snapshot keeps going after the first Disconnect *)
+Theorem C18_ban_peer_all_ips : forall n pid now,
+  nonneg_scores (gt n) -> 0 <= now -> 0 <= exp_secs (gt n) -> connected n pid = true ->
+  let n' := ban_peer_id n pid now in
+  (forall ip, In (pid, ip) (conns n) -> banned (gt n') ip = true /\ inbound_ok (gt n') (Some ip) = false /\
+                                        outbound_ok (gt n') (Some ip) = false) /\
+  connected n' pid = false.
+Proof. exact ban_peer_all_ips. Qed.
+
 Theorem C18_no_connection_while_refused : forall n pid ip, banned (gt n) ip || blk (gt n) ip = true ->
   connect_in n pid ip = n /\ connect_out n pid ip = n.
 Proof. exact no_connection_while_refused. Qed.
